@@ -210,7 +210,9 @@ def report_failures(ctx: Ctx, case: Case, model: dict | None, fails: list[dict])
     elif model is not None and model["tc"].startswith("hole"):
         observed["shape"] = {"hole 1": "union-receiver-attribute-assignment", "hole 2": "loop-pass-cap",
                              "hole 3": "union-isinstance-common-subclass",
-                             "hole 4": "narrowing-masks-assignment-at-jump"}.get(model["tc"], model["tc"])
+                             "hole 4": "narrowing-masks-assignment-at-jump",
+                             "hole 5": "handler-state-misses-a-raise-point",
+                             "hole 6": "jump-through-assigning-finally"}.get(model["tc"], model["tc"])
     elif "declared-unassigned-attribute" in sh and f["kind"] == "AttributeError":
         m = re.match(r"'(K\d+)' object has no attribute '(a\d+)'", f.get("msg", ""))
         observed["shape"] = "declared-unassigned-attribute"
@@ -426,6 +428,14 @@ def known_programs() -> list[Case]:
                     ("ret", ("intLit", 2))]))])
     p.fill_mro()
     out.append(Case("kMasked", p, [(1, [("noneLit",), ("intLit", 3)])], "replay:narrowing-masks-assignment-at-jump"))
+    # a break passing through a finally clause that assigns a local
+    p = L.Prog([], [L.Func([I_], [(L.I, L.N)], I_, L.seq([
+        ("decl", 1, ("intLit", 0)), ("assign", 1, ("intLit", 0)),
+        ("while", ("lt", ("intLit", 0), ("var", 0)),
+         ("try", L.seq([("assign", 1, ("intLit", 1)), ("brk",)]), [0], ("ret", ("intLit", 0)), ("pass",), ("assign", 1, ("noneLit",)))),
+        ("ret", ("add", ("var", 1), ("intLit", 1)))]))])
+    p.fill_mro()
+    out.append(Case("kFinallyJump", p, [(0, [("intLit", 1)])], "replay:jump-through-assigning-finally"))
     out.append(Case("kMIopt", None, [], "replay:F-C01-3b-optional-isinstance-common-subclass", src=(
         "from typing import Optional\n"
         "class A:\n    def __init__(self) -> None:\n        pass\n"
@@ -450,7 +460,8 @@ def known_programs() -> list[Case]:
 
 
 EXPECTED_MODEL = {"kF19": (False, "ok"), "kF18": (False, "ok"), "kUnionSet": (True, "hole 1"), "kLoopCap": (True, "hole 2"),
-                  "kMI": (True, "hole 3"), "kMasked": (True, "hole 4")}
+                  "kMI": (True, "hole 3"), "kMasked": (True, "hole 4"),
+                  "kFinallyJump": (True, "hole 6")}
 
 
 def known_stream(ctx: Ctx) -> None:
